@@ -61,6 +61,30 @@ def accepts(op, k):
     return k == "bool"
 
 
+def check(tier, seed, replay=None):
+    """standard flow, except that a case whose harness process died or stalled (no `(multi ...)` observation: machine
+    overload, or the shared harness binary being rebuilt by a concurrent check) is evaluated once more before it is
+    judged; if it still has no observation the judge reports it as a violation (`bad no-observation`)."""
+    import types
+    from vlib import flow
+    orig = flow.judge_cases
+    this = types.SimpleNamespace(**{k: v for k, v in globals().items() if k != "check"})
+
+    def judge_cases(model_exe, mode, cases, harness_exe=None, stall=30.0):
+        res = orig(model_exe, mode, cases, harness_exe, stall)
+        glitch = [c for c, o, v in res if not o.startswith("(multi")]
+        if glitch:
+            again = {c["id"]: (c, o, v) for c, o, v in orig(model_exe, mode, glitch, harness_exe, stall)}
+            res = [again.get(c["id"], (c, o, v)) for c, o, v in res]
+        return res
+
+    flow.judge_cases = judge_cases
+    try:
+        return flow.standard_check(this, tier, seed, replay)
+    finally:
+        flow.judge_cases = orig
+
+
 def pregen():
     """regenerate coq/theories/Gen/DispatchArms.v from the current Rust source (see translators/dispatch_arms.py)"""
     import importlib, os, sys
